@@ -1,7 +1,7 @@
 """Facts regenerated from /repo's SOURCE on every run (harness `facts` engine: go/parser + go/ast) and checked against the model:
 F1 (registered commands) is written to lean/RedisGoModel/Generated/Commands.lean and a `decide`d Lean theorem (Props/C04.lean) requires
 every registered command to be one the model knows; F3 (index / slice / assertion / make / division sites with the minimum length the
-dominating guards guarantee, harness/sites.go) is written to Generated/Sites.lean and closed by Props/C04Sites.lean; F2 (CheckTTL/lock skeleton per executor), F4 (order of the Ready arm) and F5 (raft
+dominating guards guarantee, harness/sites.go) is written to Generated/Sites.lean and closed by Props/C04Sites.lean; F2 (CheckTTL/lock skeleton per executor; ALSO written to Generated/Skeletons.lean and closed by Props/FactsF2.lean), F4 (order of the Ready arm) and F5 (raft
 Config literals) are compared with the committed expectations in /verif/expectations/facts.json."""
 import collections
 import json
@@ -11,6 +11,7 @@ import re
 from . import core
 
 GEN = os.path.join(core.LEAN, "RedisGoModel", "Generated", "Commands.lean")
+GEN_SKEL = os.path.join(core.LEAN, "RedisGoModel", "Generated", "Skeletons.lean")
 GEN_SITES = os.path.join(core.LEAN, "RedisGoModel", "Generated", "Sites.lean")
 SITES_PROP = os.path.join(core.LEAN, "RedisGoModel", "Props", "C04Sites.lean")
 EXPECT = os.path.join(core.VERIF, "expectations", "facts.json")
@@ -139,6 +140,24 @@ def check_sites(facts):
     return not msgs, msgs, broken
 
 
+def skeleton_rows(facts):
+    """fact F2 keyed by command name: (command, executor, tokens)"""
+    sk = facts.get("skeletons") or {}
+    return sorted((name, fn, sk.get(fn) or []) for name, fn in (facts.get("commands") or {}).items())
+
+
+def write_skeletons(facts):
+    rows = ["(%s, %s, [%s])" % (_lstr(n), _lstr(fn), ", ".join(_lstr(t) for t in toks)) for n, fn, toks in skeleton_rows(facts)]
+    src = ("/-! GENERATED on every check run from /repo/memdb/*.go by the harness `facts` engine — do not edit.\n"
+           "Fact F2: per registered command, its executor and the syntactic order of the CheckTTL / locks.* calls in the executor's body\n"
+           "(TTL, L/U, RL/RU, LM/UM, RLM/RUM, `defer:` prefix for deferred releases, `loop{` where a for/range statement starts). -/\n"
+           "namespace Generated\n\ndef skeletons : List (String × String × List String) := " + _llist(rows) + "\n\nend Generated\n")
+    old = open(GEN_SKEL).read() if os.path.exists(GEN_SKEL) else None
+    if old != src:
+        os.makedirs(os.path.dirname(GEN_SKEL), exist_ok=True)
+        open(GEN_SKEL, "w").write(src)
+
+
 def regenerate(R):
     """returns (ok, detail); registers one obligation per fact this property uses"""
     facts = extract()
@@ -147,6 +166,7 @@ def regenerate(R):
         return False, "extractor failed"
     write_generated(facts)
     write_sites(facts)
+    write_skeletons(facts)
     exp = json.load(open(EXPECT)) if os.path.exists(EXPECT) else {}
     diffs = {}
     sk, esk = facts.get("skeletons", {}), exp.get("skeletons", {})
@@ -178,7 +198,8 @@ def regenerate(R):
         if R.prop not in props or fid in ("F1", "F3"):
             continue
         good = fid not in diffs
-        what = {"F2": "CheckTTL / lock-call skeleton of every registered executor equals the recorded one (%d executors)" % len(sk),
+        what = {"F2": "CheckTTL / lock-call skeleton of every registered executor equals the recorded one (%d executors; also closed in Lean: "
+                      "Generated/Skeletons.lean = Expect.skeletons, every acquire released, no CheckTTL under a held stripe — Props/FactsF2)" % len(sk),
                 "F4": "order of the calls in serveChannels' Ready arm equals the recorded one (persist before send/publish)",
                 "F5": "raft.Config literal of startRaft equals the recorded one (no PreVote/CheckQuorum)"}[fid]
         R.oblige("fact %s: %s" % (fid, what), "facts", good, "; ".join(diffs.get(fid, []))[:600])
